@@ -138,7 +138,10 @@ impl PlainBlobStore {
             }
         }
 
-        Ok((max_id + 1, stats))
+        let next_id = max_id.checked_add(1).ok_or_else(|| {
+            ZiporaError::invalid_data("record id space exhausted: a blob is named 4294967295")
+        })?;
+        Ok((next_id, stats))
     }
 
     /// Generate the next record ID
